@@ -103,48 +103,72 @@ func runListen(cfg, buf int, cs []liveChunk) (msgs []liveMsg, panicked string) {
 		in, out := ins[0], outs[0]
 		in.Open()
 		out.Open()
-		var opts []midi.Option
-		if cfg&1 != 0 {
-			opts = append(opts, midi.UseSysEx())
-		}
-		if cfg&2 != 0 {
-			opts = append(opts, midi.UseActiveSense())
-		}
-		if cfg&4 != 0 {
-			opts = append(opts, midi.UseTimeCode())
-		}
-		opts = append(opts, midi.SysExBufferSize(uint32(buf)))
-		var raw []liveMsg
-		stop, err := midi.ListenTo(in, func(m midi.Message, ms int32) {
-			raw = append(raw, liveMsg{ms, append([]byte{}, m...)})
-		}, opts...)
-		if err != nil {
-			panic("ListenTo: " + err.Error())
-		}
-		const probeMs = 1000
-		drv.Sleep(probeMs * time.Millisecond)
-		if e := out.Send([]byte{0xFA}); e != nil {
-			panic("Send: " + e.Error())
-		}
-		for _, c := range cs {
-			drv.Sleep(time.Duration(c.delta) * time.Millisecond)
-			if e := out.Send(c.bytes); e != nil {
-				panic("Send: " + e.Error())
-			}
-		}
-		stop()
-		// calibrate
-		if len(raw) > 0 && len(raw[0].b) == 1 && raw[0].b[0] == 0xFA && raw[0].ts <= probeMs && raw[0].ts >= probeMs-50 {
-			base := raw[0].ts
-			for _, m := range raw[1:] {
-				msgs = append(msgs, liveMsg{m.ts - base, m.b})
-			}
-		} else { // the probe did not come back as sent: report what was received, uncalibrated
-			for _, m := range raw {
-				msgs = append(msgs, liveMsg{m.ts - probeMs, m.b})
-			}
+		msgs = listenOnce(drv, in, out, cfg, buf, cs)
+	})
+	return
+}
+
+// runListenSeq: ONE driver and port pair, listened to once per entry of cfgs (ListenTo, send the stream, stop, next):
+// what each listener receives. A port that has been listened to before must behave like a fresh one.
+func runListenSeq(cfgs []int, buf int, cs []liveChunk) (res [][]liveMsg, panicked string) {
+	panicked = try(func() {
+		drv := testdrv.New("verif")
+		ins, _ := drv.Ins()
+		outs, _ := drv.Outs()
+		in, out := ins[0], outs[0]
+		in.Open()
+		out.Open()
+		for _, cfg := range cfgs {
+			res = append(res, listenOnce(drv, in, out, cfg, buf, cs))
 		}
 	})
+	return
+}
+
+func listenOnce(drv *testdrv.Driver, in drivers.In, out drivers.Out, cfg, buf int, cs []liveChunk) (msgs []liveMsg) {
+	var opts []midi.Option
+	if cfg&1 != 0 {
+		opts = append(opts, midi.UseSysEx())
+	}
+	if cfg&2 != 0 {
+		opts = append(opts, midi.UseActiveSense())
+	}
+	if cfg&4 != 0 {
+		opts = append(opts, midi.UseTimeCode())
+	}
+	opts = append(opts, midi.SysExBufferSize(uint32(buf)))
+	var raw []liveMsg
+	stop, err := midi.ListenTo(in, func(m midi.Message, ms int32) {
+		raw = append(raw, liveMsg{ms, append([]byte{}, m...)})
+	}, opts...)
+	if err != nil {
+		panic("ListenTo: " + err.Error())
+	}
+	const probeMs = 1000
+	drv.Sleep(probeMs * time.Millisecond)
+	if e := out.Send([]byte{0xFA}); e != nil {
+		panic("Send: " + e.Error())
+	}
+	for _, c := range cs {
+		drv.Sleep(time.Duration(c.delta) * time.Millisecond)
+		if e := out.Send(c.bytes); e != nil {
+			panic("Send: " + e.Error())
+		}
+	}
+	stop()
+	// calibrate
+	// (on a port that was listened to before, the first stamp also contains the virtual time that had passed before:
+	// the base of the stamps is the driver's business, the property speaks about the stamps relative to it)
+	if len(raw) > 0 && len(raw[0].b) == 1 && raw[0].b[0] == 0xFA {
+		base := raw[0].ts
+		for _, m := range raw[1:] {
+			msgs = append(msgs, liveMsg{m.ts - base, m.b})
+		}
+	} else { // the probe did not come back as sent: report what was received, uncalibrated
+		for _, m := range raw {
+			msgs = append(msgs, liveMsg{m.ts - probeMs, m.b})
+		}
+	}
 	return
 }
 
